@@ -18,7 +18,7 @@ pub static PROP: Prop = Prop {
     rule: "cases = (symbol size, data codeword vector of the size's capacity): enumerated every unit vector e_i*v (v in {1, 2, 0x53, 255}) of every size, all-zero and all-255, plus generated random / sparse vectors; oracle = all k syndromes of every interleaved block computed with independent shift-xor GF(256) arithmetic are zero, count equals Table 7, and the error codewords equal those of the reference encoder; non-trivial = non-zero data vector; distinct by (size, vector)",
     assumptions: &["field polynomial 0x12D and generator roots 2^1..2^k as in ISO/IEC 16022 Annex E (checked against the 5-check-character generator 62 111 15 48 228)"],
     extra: super::no_extra,
-    fuzz_runs: 30000,
+    fuzz_runs: 100000,
 };
 
 #[derive(Debug, Clone)]
